@@ -130,7 +130,7 @@ def run_signs(den, P):
                     state['depth'] = 0
             state['calls'].append((args[0], S.deref(args[1]), args[2], args[3]))
             return C.dec(R, RS)
-        m.overrides = [(re.compile(r'^impl_division$'), contract)] + list(m.overrides)
+        m.overrides = [(re.compile(r'^(?:[a-z_]+::)*impl_division$'), contract)] + list(m.overrides)
         m.cut = None
         if m.branch_bool(z3.And(x > 0, z3.BoolVal(den > 0))):
             m.labels.add('signs: positive/positive goes straight to the loop (covered by the induction)')
@@ -201,7 +201,7 @@ def run_overload(ov, mode, dval, ga, gb, P):
         def inverse_contract(mm, mo, args, tys, dty):
             calls.append('inverse')
             return C.dec(R, RS)
-        m.overrides = [(re.compile(r'^impl_division$'), contract)] + list(m.overrides)
+        m.overrides = [(re.compile(r'^(?:[a-z_]+::)*impl_division$'), contract)] + list(m.overrides)
         if mode != 'zero':
             # inverse() is C12 (not applicable); for a ZERO divisor its body returns early and is executed for real
             m.overrides = [(re.compile(r'^BigDecimal::inverse$'), inverse_contract)] + m.overrides
